@@ -25,7 +25,7 @@ EXPLANATION = (
     "combines a wrapper-space name with inner-graph keys/objects (or vice versa) without a translator; (R7) a reverse rename map (which keeps "
     "abandoned intermediate names) is inverted only when restricted to the node's current names; (R8) the copy helper of every concrete node "
     "class gives the derived node its own history list (renames are appended in place, so a shared list would let a later rename of one node "
-    "re-map the names of another)."
+    "re-map the names of another). R1 also requires that every entry of a batch records its mapping unconditionally; R6 now also covers the callable-node executors (current input names vs the function's own parameter names)."
 )
 NOT_DECIDED = "That a consistently alpha-renamed graph computes equal values (a statement about runs); rename validation errors (unknown/duplicate names)."
 
